@@ -269,6 +269,8 @@ structure Inv (g : Graph) (K m : Nat) (s : St) : Prop where
     ∀ q, x ∈ g.R0 q → x ∈ (s.pass q).reads
   /-- a walked NPU pass reads no CPU-produced tensor of the description any more -/
   visited : ∀ p, p < m → g.sg p ≠ 0 → ∀ x, x ∈ (s.pass p).reads → x < g.tens.length → ¬ g.cpuProduced x
+  /-- tensors of the description are no clones -/
+  src_orig : ∀ x, x < g.tens.length → s.src x = none
 
 theorem Inv.mono {g : Graph} {K K' m : Nat} {s : St} (h : Inv g K m s) (hk : K ≤ K') : Inv g K' m s :=
   { h with lower := fun a ha hc q hq hs => h.lower a ha hc q hq (by omega) }
@@ -313,6 +315,7 @@ theorem Inv.init (g : Graph) (hwf : g.WF) : Inv g 0 0 g.init where
   visited := by
     intro p hp
     omega
+  src_orig := fun _ _ => rfl
 
 /-! ## `toNpu` preserves the invariant -/
 
@@ -431,7 +434,7 @@ theorem Inv.toNpu {g : Graph} {k m : Nat} {s : St} {t : Nat} (hwf : g.WF) (h : I
     { n_ge := by simp only [toNpu_n]; omega
       ops_orig := ?_, ops_fresh := ?_, clone_kind := ?_, reads_lt := ?_, cpuOut_lt := ?_, truthful := ?_, truthful' := ?_,
       reads_inputs := ?_, prov := ?_, ifm_reads := ?_, outputs_eq := ?_, lower := ?_, allOrNothing := ?_, outs_kept := ?_,
-      island_out := ?_, unprot := ?_, keepReaders := ?_, visited := ?_ }
+      island_out := ?_, unprot := ?_, keepReaders := ?_, visited := ?_, src_orig := ?_ }
   · -- ops_orig
     intro x hx
     rw [toNpu_ops, if_neg (by omega)]
@@ -605,6 +608,10 @@ theorem Inv.toNpu {g : Graph} {k m : Nat} {s : St} {t : Nat} (hwf : g.WF) (h : I
     rcases (hR p x).mp hx with ⟨rfl, _⟩ | ⟨hx, _⟩
     · omega
     · exact h.visited p hp hsg x hx hxl
+  · -- src_orig
+    intro x hx
+    rw [toNpu_src, if_neg (by omega)]
+    exact h.src_orig x hx
 
 
 /-! ## `toCpu` (one NPU subgraph per CPU output) preserves the invariant -/
@@ -686,7 +693,7 @@ theorem Inv.toCpuPlain {g : Graph} {k m : Nat} {s : St} {t p : Nat} (hwf : g.WF)
     { n_ge := by simp only [toCpuPlain_n]; omega
       ops_orig := ?_, ops_fresh := ?_, clone_kind := ?_, reads_lt := ?_, cpuOut_lt := ?_, truthful := ?_, truthful' := ?_,
       reads_inputs := ?_, prov := ?_, ifm_reads := ?_, outputs_eq := ?_, lower := ?_, allOrNothing := ?_, outs_kept := ?_,
-      island_out := ?_, unprot := ?_, keepReaders := ?_, visited := ?_ }
+      island_out := ?_, unprot := ?_, keepReaders := ?_, visited := ?_, src_orig := ?_ }
   · intro x hx
     rw [toCpuPlain_ops, if_neg (by omega)]
     exact h.ops_orig x hx
@@ -822,6 +829,9 @@ theorem Inv.toCpuPlain {g : Graph} {k m : Nat} {s : St} {t p : Nat} (hwf : g.WF)
     rcases (hR p' x).mp hx with ⟨rfl, _⟩ | ⟨hx, _⟩
     · omega
     · exact h.visited p' hp' hsg x hx hxl
+  · intro x hx
+    rw [toCpuPlain_src, if_neg (by omega)]
+    exact h.src_orig x hx
 
 
 /-! ## The loops -/
@@ -1421,6 +1431,14 @@ def progOf (g : Graph) (persistent : List Nat) : InPlaceSpec.Prog :=
 theorem readsAt_progOf (g : Graph) (pers : List Nat) (q a : Nat) :
     InPlaceSpec.readsAt (progOf g pers) q a = g.readsAt q a := by
   unfold InPlaceSpec.readsAt progOf Graph.readsAt Graph.passAt
+  simp only [List.getElem?_map]
+  cases g.passes[q]? with
+  | none => simp [Pass.empty]
+  | some p => rfl
+
+theorem writesAt_progOf (g : Graph) (pers : List Nat) (q a : Nat) :
+    InPlaceSpec.writesAt (progOf g pers) q a = (g.O0 q).contains a := by
+  unfold InPlaceSpec.writesAt progOf Graph.O0 Graph.passAt
   simp only [List.getElem?_map]
   cases g.passes[q]? with
   | none => simp [Pass.empty]
